@@ -80,6 +80,13 @@ func (s *StreamRecipe) Build() *Built {
 		}
 		cs := refenc.Realise(r, kinds, refenc.SeqOptions{MaxOpsPerChunk: r.Range(1, 80), MaxRaw: maxRaw, DictSize: ds, BigChunk: s.Big})
 		return &Built{Stream: cs.Stream, Content: cs.Content, Format: "lzma2", Dict: ds}
+	case "refenc-xz-maxdict":
+		// one small block whose LZMA2 filter declares the largest dictionary the
+		// format knows (size code 40 = 4 GiB - 1; xz-utils accepts it)
+		r := sim.NewRng(s.Seed)
+		cs := refenc.Realise(r, refenc.RandomLegalKinds(r, r.Range(1, 3)), refenc.SeqOptions{MaxOpsPerChunk: 20, DictSize: 1 << 16})
+		img := refxz.BuildStream(sim.Pick(r, []byte{refxz.CheckNone, refxz.CheckCRC32, refxz.CheckCRC64}), []refxz.BlockSpec{{Data: cs.Stream, Content: cs.Content, DictByte: 40}})
+		return &Built{Stream: img, Content: cs.Content, Format: "xz"}
 	case "refenc-far-xz", "refenc-far-alone", "refenc-far-l2":
 		f := refenc.GenFar(sim.NewRng(s.Seed), map[string]string{"refenc-far-xz": "xz", "refenc-far-alone": "lzma", "refenc-far-l2": "lzma2"}[s.Kind])
 		return &Built{Stream: f.Stream, Content: f.Content, Format: f.Format, Dict: f.Dict}
